@@ -78,6 +78,11 @@ Proof.
   destruct H as (Hw & Hf & Hp). repeat split; try assumption. intros i. rewrite <- (Hp i), Ht. now rewrite app_nil_r.
 Qed.
 
+Theorem wire_final' progs tr s : nonempty progs -> reach progs tr s ->
+  holder s = None -> (forall i, tasks s i = []) ->
+  wire s = wire_of (order s) /\ fdat s = fds_of 0 (order s) /\ forall i, proj i (order s) = progs i.
+Proof. intros Hne Hr Hh Ht. exact (wire_final progs tr s Hne Hr (conj Hh Ht)). Qed.
+
 (* no byte of another message ever sits between the bytes of the message in flight: at any moment the wire ends
    with exactly the first pos bytes of the holder's message, and before them only whole messages *)
 Theorem wire_in_flight progs tr s h : nonempty progs -> reach progs tr s -> holder s = Some h ->
